@@ -87,6 +87,10 @@ def run(ctx, rep):
     rep.rule("R3.5", "the point kept in a filter entry stays the evaluated point (it does not alias solver state that is modified in place)")
     from .c02 import r28
     r28(ctx, rep, rule="R3.5")
+    rep.rule("R3.6", "the settings of the filter/history/callback reach Problem through the right parameters (no swapped arguments)")
+    k = common.check_swapped_args(ctx, rep, "R3.6", lambda g: g.cls is not None and g.cls.name == "Problem" or g.name == "_build_result")
+    if k < 5:
+        raise AnalysisError("call sites of Problem methods not found")
 
 
 # ---------------------------------------------------------------------------
@@ -165,6 +169,8 @@ def r31(ctx, rep):
             raise AnalysisError(f"filter update fragment uses a construct outside the evaluator's subset: {exc}")
         except RecursionError:
             raise AnalysisError("filter update fragment does not terminate in the evaluator")
+        except (TypeError, IndexError, ValueError, ZeroDivisionError, KeyError, AttributeError) as exc:
+            raise AnalysisError(f"filter update fragment cannot be evaluated on an abstract state: {type(exc).__name__}: {exc}")
         probs = []
         if not (len(F) == len(C) == len(X)):
             probs.append(f"lists out of step: lengths {len(F)}, {len(C)}, {len(X)}")
